@@ -114,14 +114,23 @@ def _gen_h2(rng, n, tier):
     fb = FrameBuilder()
     t = 0.0
     client, marks, by_tag = [], [], {}
-    first = rng.choice(["preface", "preface", "late_preface", "h2c"])
+    first = rng.choice(["preface", "preface", "late_preface", "h2c", "h2c_refused"])
     # responses are 2 bytes: a client that never sends WINDOW_UPDATE is just as legal, and says nothing after its last request
     rspec = {"kind": "h2", "credit": rng.choice(["auto", "none"])}
     if first == "late_preface":
         d = rng.choice([0.5, 1.0 + 1e-3]) * T
         client.append(["advance", d])
         t += d
-    if first == "h2c":
+    if first == "h2c_refused":
+        # the upgraded request itself is answered by the server (Host not in server_names -> 404 on stream 1)
+        config["server_names"] = ["h.example"]
+        rspec["skip_h1_101"] = True
+        client.append(["feed_nosettle", b"GET /t%d HTTP/1.1\r\nHost: other.example\r\nConnection: Upgrade, HTTP2-Settings\r\nUpgrade: h2c\r\nHTTP2-Settings: \r\n\r\n" % (n * 10)])
+        client.append(["quiesce"])
+        client.append(["feed", client_preface(fb, {})])
+        marks.append({"kind": "stream", "t": t, "sid": 1, "delay": 0, "error": True})
+        sid = 3
+    elif first == "h2c":
         tag = n * 10
         by_tag[str(tag)] = _app_delay(rng.choice([0, 2 * T]), tag)
         rspec["skip_h1_101"] = True
@@ -139,7 +148,7 @@ def _gen_h2(rng, n, tier):
         client.append(["advance", d])
         t += d
         kind = rng.choice(["stream", "stream", "ping", "settings", "two_streams", "sn404", "stream_rst"])
-        if kind == "sn404" and first == "h2c":
+        if kind == "sn404" and first in ("h2c", "h2c_refused"):
             kind = "stream"
         if kind == "stream_rst":
             # a request the client gives up on: from its RST_STREAM on the stream no longer keeps the connection busy
